@@ -18,7 +18,7 @@ pub fn oracle(o: &Outcome, s: &Scen) -> Option<(String, serde_json::Value)> {
 }
 
 pub fn run(cfg: &Cfg, rep: &mut Report) {
-  let n = cfg.n(16_000, 2_500_000);
+  let n = cfg.n(24_000, 2_500_000);
   if cfg.mode.starts_with("fam") {
     let fam: usize = cfg.mode[3..].parse().unwrap();
     let mut hits = 0;
